@@ -21,7 +21,7 @@ func init() {
 				"Not decided: that the change really happened (kernel); events the kernel queued before Remove returned.",
 			Rule:        "obligations per translator call, per event-send site, per name origin edge, per handler effect; non-trivial = construct exists",
 			Assumptions: []string{"go/types + go/ssa", "C15 table extraction", "production folding (E-F) re-verified each run"},
-			MinObl:      8,
+			MinObl:      10,
 		},
 		Configs: tiered(linuxQuick, linuxAll),
 		Run:     runC02,
